@@ -2,22 +2,26 @@
 # tools/patchrun.sh <patch.diff|/dev/null> [Cxx ...]      (default: all 20)
 # Applies the patch to a SCRATCH copy of /repo (never /repo itself), points a scratch copy of the
 # harness at it and runs the given checks through ./check (quick tier, the registered scales).
+# PATCHRUN_MODE=thorough runs the thorough tier (with its fuzz stage for C03/C07).
 # One line per check: "<patch> <Cxx> SILENT|ALARM <key>|ERROR(rc)".  Scratch: /tmp/vpatch (--clean removes it).
 set -u
-M=/tmp/vpatch
+M=${PATCHRUN_DIR:-/tmp/vpatch}
 if [ "${1:-}" = "--clean" ]; then rm -rf $M; exit 0; fi
 PATCH=$(readlink -f "$1"); shift
 IDS="$@"; [ -z "$IDS" ] && IDS=$(seq -f "C%02g" 1 20)
 mkdir -p $M/out/evidence $M/out/replays/new
 rsync -a --delete --exclude target --exclude .git /repo/ $M/repo/
 rsync -a --delete --exclude 'target*' /verif/harness/ $M/harness/
-sed -i "s|path = \"/repo\"|path = \"$M/repo\"|" $M/harness/vkit/Cargo.toml $M/harness/vcheck/Cargo.toml
+rsync -a --delete --exclude 'target*' --exclude corpus --exclude artifacts /verif/fuzz/ $M/fuzz/
+sed -i "s|path = \"/repo\"|path = \"$M/repo\"|" $M/harness/vkit/Cargo.toml $M/harness/vcheck/Cargo.toml $M/fuzz/Cargo.toml
 if [ "$PATCH" != "/dev/null" ]; then
   (cd $M/repo && patch -p1 --no-backup-if-mismatch -s < "$PATCH") || { echo "$(basename $PATCH) PATCH-FAILED"; exit 2; }
 fi
+MODE=${PATCHRUN_MODE:-quick}
+export VERIF_FUZZ_DIR=$M/fuzz VERIF_FUZZ_TARGET_DIR=$M/fuzz-target
 export VERIF_HARNESS_DIR=$M/harness VERIF_TARGET_DIR=$M/target VERIF_OUT=$M/out VERIF_SEED=${VERIF_SEED:-1} VERIF_TIMEOUT=${VERIF_TIMEOUT:-1800}
 for id in $IDS; do
-  /verif/check $id quick >$M/out/$id.log 2>&1
+  /verif/check $id $MODE >$M/out/$id.log 2>&1
   rc=$?
   if [ $rc -eq 0 ]; then echo "$(basename $PATCH) $id SILENT";
   elif [ $rc -eq 1 ]; then echo "$(basename $PATCH) $id ALARM $(grep -m1 '^failure key' $M/out/$id.log | cut -c1-220)";
